@@ -1,4 +1,5 @@
 import SlotVerif.Model.Slot
+import SlotVerif.Model.Parse
 import SlotVerif.Driver.Util
 /-! `slot` protocol: interleavings of fresh / numeric / named / display in one thread. -/
 namespace SV.Drv
@@ -33,6 +34,26 @@ def slotStep (s : SlotSt) (op : List String) : SlotSt × String :=
     match named s.tab (decodeCps cps) with
     | (.ok c, t) => ({ tab := t, issued := s.issued.push c }, showSlot t c)
     | (.panic, t) => ({ s with tab := t }, "panic")
+  | ["prs", cps] =>
+    -- the name reaches the table through the parser (`RecExpr::parse("(var $<name>)")`): same slot as `Slot::named`,
+    -- provided the text is one identifier for the tokenizer; otherwise a parse error
+    let txt := decodeCps cps
+    if txt.isEmpty || !(txt.all Parse.identChar) then (s, "err")
+    else match named s.tab txt with
+      | (.ok c, t) => ({ tab := t, issued := s.issued.push c }, showSlot t c)
+      | (.panic, t) => ({ s with tab := t }, "panic")
+  | ["reprs", i] =>
+    -- print the i-th issued slot and parse the text back through the parser
+    match s.issued[nat! i]? with
+    | some c =>
+      match display s.tab c with
+      | some txt =>
+        if txt.isEmpty || !(txt.all Parse.identChar) then (s, "err")
+        else match named s.tab txt with
+          | (.ok c', t) => ({ s with tab := t }, showSlot t c')
+          | (.panic, t) => ({ s with tab := t }, "panic")
+      | none => (s, "panic")
+    | none => (s, "none")
   | ["disp", i] =>
     match s.issued[nat! i]? with
     | some c => (s, showSlot s.tab c)
